@@ -91,6 +91,10 @@ type GhostVar struct {
 }
 
 type Lemma struct {
+	Binders     [][2]string // SMT binder name, sort
+	BinderNames []string    // source names
+	Body        string
+	Local bool // axiom for later lemmas only, not for function obligations
 	Formula string // closed SMT formula (set when the lemma is generated)
 	Header  string
 	Name  string
@@ -204,6 +208,9 @@ func (e *Engine) loadContractFile(path string, lib bool, pkg *types.Package) err
 			head := strings.Fields(rest[:i])
 			lm := &Lemma{Name: head[0], Text: strings.TrimSpace(rest[i+1:]), File: rel, Line: rl.line}
 			for j, h := range head[1:] {
+				if h == "local" {
+					lm.Local = true
+				}
 				if h == "props" {
 					lm.Props = head[j+2:]
 					break
